@@ -73,6 +73,20 @@ def prove(c, goal, timeout_ms=10000, use_cvc5=True):
         a = cvc5_check(fs, max(5, timeout_ms // 1000))
         if a == "unsat":
             return "PROVED", "cvc5", dt
+        # verdicts must not flip under load: retry with other seeds and a larger budget before giving up
+        for seed in (7, 23):
+            s2 = z3.Solver()
+            s2.set("timeout", timeout_ms * 3)
+            s2.set("random_seed", seed)
+            s2.add(*fs)
+            t0 = time.time()
+            r2 = s2.check()
+            dt += time.time() - t0
+            if r2 == z3.unsat:
+                return "PROVED", "z3(retry)", dt
+            if r2 == z3.sat:
+                r = r2
+                break
     return "NOTPROVED", ("z3:" + str(r)), dt
 
 
@@ -308,6 +322,31 @@ def verify(h, repo, tier="quick", log=None):
                     continue
                 if not goals:
                     obs.append(Ob(pname + "/feasible", "PROVED", backend="path", time=0.0, case=case))
+                # encoding cross-check: sampled models of this path (exact bounded semantics) are concretised and the
+                # contract predicates are evaluated natively on the real code -- whatever was proved must hold there
+                nx = getattr(h, "xcheck", 0) if tier == "quick" else getattr(h, "xcheck", 0) * 3
+                if nx and kind == "ok" and hasattr(h, "replay"):
+                    for sample in range(nx):
+                        kx = 1 + sample % 2
+                        sx = z3.Solver()
+                        sx.set("timeout", 5000)
+                        sx.set("random_seed", 17 * sample + 3)
+                        sx.set("phase_selection", 5)
+                        sx.add(*unrolled(c, kx))
+                        if sx.check() != z3.sat:
+                            continue
+                        try:
+                            wx = h.concretise(case, kx, sx.model(), c, st)
+                            if wx is None:
+                                break
+                            rx = h.replay(wx)
+                        except Exception as e:
+                            stats["xcheck_errors"] = stats.get("xcheck_errors", 0) + 1
+                            continue
+                        stats["xchecks"] = stats.get("xchecks", 0) + 1
+                        if rx.get("violated"):
+                            obs.append(Ob(pname + "/xcheck", "XCHECK", reason=f"native replay of a sampled model of this path "
+                                          f"violates {rx['violated']}", witness=wx, case=case))
                 for gname, goal in goals:
                     oname = f"{pname}/{gname}"
                     if isinstance(goal, FrameViolation):
